@@ -4,4 +4,4 @@ Require Import NS.theories.F64 NS.theories.StrLib NS.theories.Lang NS.theories.P
 Extraction Language OCaml.
 Extraction "extract/ModelLangC03.ml"
   F64.of_bits F64.to_bits Lang.run_impl PlanCheck.plan_ok PlanCheck.plan_ok2 PlanCheck.prunable_unreachable
-  LiveCheck.plan_ok3 LiveCheck.ds_ok.
+  LiveCheck.plan_ok3 LiveCheck.plan_ok4 LiveCheck.ds_ok LiveCheck.ds_ok_x.
